@@ -11,7 +11,7 @@
  * (VOPT_CONCRETE), strtol is a decimal model, strings.c (--list=TEXT) is the real code.
  *
  * The reference reading (ref_parse) is written from the property statement:
- *   word not starting with '-'            non-option word, untouched, survives removal
+ *   word not starting with '-', lone "-"  non-option word, untouched, survives removal
  *   --NAME  --NAME=VALUE  --NAME VALUE    NAME must equal a long name (case-insensitive)
  *   -xyz                                  letters left to right; a letter that takes a value ends the word:
  *   -xVALUE  -x VALUE                     the value is the rest of the word, else the next word
@@ -19,24 +19,19 @@
  *            next word is not touched; the short form takes no value: it sets the bits.  Only mask bits change.
  *   integer / string: last occurrence wins; list: --e=TEXT splits TEXT into words, otherwise the list is the
  *            value plus the rest of the line and parsing stops; abstract: handler called with the value, or
- *            NULL when the next word is missing
+ *            NULL when the next word is missing or a known option word
  *   options of the other pass: recognised and skipped exactly the same way, variables untouched
  *   removal (normal pass only): argv == program name, non-option words in order, NULL; otherwise argv untouched
  *   pre-parse flag cleared by the pre-parse pass; nothing else in the settings changes; bad_opts unchanged
  * Vectors with an unknown option, an empty long name or an option-looking candidate value of an abstract
- * option are class UNKNOWN: for them (and for every vector) memory safety, termination, "only mask bits of
- * the boolean variable change", "bad options are counted, not fatal" are required, plus at least one bad option.
+ * option (class UNKNOWN) or with an option that needs a value as the last word (class MISSING) are irregular:
+ * for them (and for every vector) memory safety, termination, "only mask bits of the boolean variable
+ * change", "bad options are counted, not fatal" are required, plus at least one bad option.  A vector
+ * belongs to a unit iff its class word is exactly the unit's (0 = regular).
  *
- * Input classes with a known defect are split off (GUIDE rule 2) so that the other classes stay clean; a
- * vector belongs to a unit iff its class word is exactly the unit's:
- *   MISSING         an option that needs a value is the last word             (finding C08-missing-value-loop)
- *   SHORTBOOL_VAL   a short boolean letter directly followed by a boolean word (C08-shortbool-swallow)
- *   ARGS_ATTACHED   the list option spelled -eVALUE                            (C08-arglist-attached)
- *   ARGS_EQ_EMPTY   the list option spelled --e=                               (C08-arglist-eq-overflow)
- *   PP_LIST         a pre-parse list option without '=' while removal is on    (C08-prepass-arglist)
- *   DASH            a lone "-": no B unit (the out-of-bounds read makes every later value arbitrary and the
- *                   run explodes); covered by the P units find_short_option.nul / is_valid_option.dash and
- *                   the native demo                                            (C08-lone-dash)
+ * The small families SBV / ATT / EQE / PPL / DASH / MISS hold the spellings that used to hit the defects
+ * C08-shortbool-swallow, -arglist-attached, -arglist-eq-overflow, -prepass-arglist, -lone-dash,
+ * -missing-value-loop (all fixed); they are ordinary units now and must pass.
  */
 
 /*@unit
@@ -232,12 +227,60 @@ timeout: 300
 mem: 12
 */
 /*@unit
+name: parse.missing.pp0rm0
+tier: B
+define: TOK_MISS, VB_ARGC=3, VB_PRE=0, VB_RM=0, CLS_WANT=CLS_MISSING
+src: options.c
+bound: argc <= 3 (all 42 vectors of 1..2 words over the 6-token family MISS), 9-entry table, setting pre-parse=0 remove-args=0, class CLS_MISSING; boolean/integer initial values symbolic
+unwind: 60
+objbits: 16
+backend: sat
+timeout: 300
+mem: 12
+*/
+/*@unit
 name: parse.missing.pp0rm1
 tier: B
 define: TOK_MISS, VB_ARGC=3, VB_PRE=0, VB_RM=1, CLS_WANT=CLS_MISSING
 src: options.c
 bound: argc <= 3 (all 42 vectors of 1..2 words over the 6-token family MISS), 9-entry table, setting pre-parse=0 remove-args=1, class CLS_MISSING; boolean/integer initial values symbolic
-unwind: 300
+unwind: 60
+objbits: 16
+backend: sat
+timeout: 300
+mem: 12
+*/
+/*@unit
+name: parse.missing.pp1rm0
+tier: B
+define: TOK_MISS, VB_ARGC=3, VB_PRE=1, VB_RM=0, CLS_WANT=CLS_MISSING
+src: options.c
+bound: argc <= 3 (all 42 vectors of 1..2 words over the 6-token family MISS), 9-entry table, setting pre-parse=1 remove-args=0, class CLS_MISSING; boolean/integer initial values symbolic
+unwind: 60
+objbits: 16
+backend: sat
+timeout: 300
+mem: 12
+*/
+/*@unit
+name: parse.missing.pp1rm1
+tier: B
+define: TOK_MISS, VB_ARGC=3, VB_PRE=1, VB_RM=1, CLS_WANT=CLS_MISSING
+src: options.c
+bound: argc <= 3 (all 42 vectors of 1..2 words over the 6-token family MISS), 9-entry table, setting pre-parse=1 remove-args=1, class CLS_MISSING; boolean/integer initial values symbolic
+unwind: 60
+objbits: 16
+backend: sat
+timeout: 300
+mem: 12
+*/
+/*@unit
+name: parse.shortbool_val.pp0rm0
+tier: B
+define: TOK_SBV, VB_ARGC=3, VB_PRE=0, VB_RM=0, CLS_WANT=0
+src: options.c
+bound: argc <= 3 (all 42 vectors of 1..2 words over the 6-token family SBV), 9-entry table, setting pre-parse=0 remove-args=0, class 0; boolean/integer initial values symbolic
+unwind: 38
 objbits: 16
 backend: sat
 timeout: 300
@@ -246,9 +289,33 @@ mem: 12
 /*@unit
 name: parse.shortbool_val.pp0rm1
 tier: B
-define: TOK_SBV, VB_ARGC=3, VB_PRE=0, VB_RM=1, CLS_WANT=CLS_SHORTBOOL_VAL
+define: TOK_SBV, VB_ARGC=3, VB_PRE=0, VB_RM=1, CLS_WANT=0
 src: options.c
-bound: argc <= 3 (all 42 vectors of 1..2 words over the 6-token family SBV), 9-entry table, setting pre-parse=0 remove-args=1, class CLS_SHORTBOOL_VAL; boolean/integer initial values symbolic
+bound: argc <= 3 (all 42 vectors of 1..2 words over the 6-token family SBV), 9-entry table, setting pre-parse=0 remove-args=1, class 0; boolean/integer initial values symbolic
+unwind: 38
+objbits: 16
+backend: sat
+timeout: 300
+mem: 12
+*/
+/*@unit
+name: parse.shortbool_val.pp1rm0
+tier: B
+define: TOK_SBV, VB_ARGC=3, VB_PRE=1, VB_RM=0, CLS_WANT=0
+src: options.c
+bound: argc <= 3 (all 42 vectors of 1..2 words over the 6-token family SBV), 9-entry table, setting pre-parse=1 remove-args=0, class 0; boolean/integer initial values symbolic
+unwind: 38
+objbits: 16
+backend: sat
+timeout: 300
+mem: 12
+*/
+/*@unit
+name: parse.shortbool_val.pp1rm1
+tier: B
+define: TOK_SBV, VB_ARGC=3, VB_PRE=1, VB_RM=1, CLS_WANT=0
+src: options.c
+bound: argc <= 3 (all 42 vectors of 1..2 words over the 6-token family SBV), 9-entry table, setting pre-parse=1 remove-args=1, class 0; boolean/integer initial values symbolic
 unwind: 38
 objbits: 16
 backend: sat
@@ -258,10 +325,58 @@ mem: 12
 /*@unit
 name: parse.args_attached.pp0rm0
 tier: B
-define: TOK_ATT, VB_ARGC=3, VB_PRE=0, VB_RM=0, CLS_WANT=CLS_ARGS_ATTACHED
+define: TOK_ATT, VB_ARGC=3, VB_PRE=0, VB_RM=0, CLS_WANT=0
 src: options.c
-bound: argc <= 3 (all 20 vectors of 1..2 words over the 4-token family ATT), 9-entry table, setting pre-parse=0 remove-args=0, class CLS_ARGS_ATTACHED; boolean/integer initial values symbolic
+bound: argc <= 3 (all 20 vectors of 1..2 words over the 4-token family ATT), 9-entry table, setting pre-parse=0 remove-args=0, class 0; boolean/integer initial values symbolic
 unwind: 18
+objbits: 16
+backend: sat
+timeout: 300
+mem: 12
+*/
+/*@unit
+name: parse.args_attached.pp0rm1
+tier: B
+define: TOK_ATT, VB_ARGC=3, VB_PRE=0, VB_RM=1, CLS_WANT=0
+src: options.c
+bound: argc <= 3 (all 20 vectors of 1..2 words over the 4-token family ATT), 9-entry table, setting pre-parse=0 remove-args=1, class 0; boolean/integer initial values symbolic
+unwind: 18
+objbits: 16
+backend: sat
+timeout: 300
+mem: 12
+*/
+/*@unit
+name: parse.args_attached.pp1rm0
+tier: B
+define: TOK_ATT, VB_ARGC=3, VB_PRE=1, VB_RM=0, CLS_WANT=0
+src: options.c
+bound: argc <= 3 (all 20 vectors of 1..2 words over the 4-token family ATT), 9-entry table, setting pre-parse=1 remove-args=0, class 0; boolean/integer initial values symbolic
+unwind: 18
+objbits: 16
+backend: sat
+timeout: 300
+mem: 12
+*/
+/*@unit
+name: parse.args_attached.pp1rm1
+tier: B
+define: TOK_ATT, VB_ARGC=3, VB_PRE=1, VB_RM=1, CLS_WANT=0
+src: options.c
+bound: argc <= 3 (all 20 vectors of 1..2 words over the 4-token family ATT), 9-entry table, setting pre-parse=1 remove-args=1, class 0; boolean/integer initial values symbolic
+unwind: 18
+objbits: 16
+backend: sat
+timeout: 300
+mem: 12
+*/
+/*@unit
+name: parse.args_eq_empty.pp0rm0
+tier: B
+define: TOK_EQE, VB_ARGC=3, VB_PRE=0, VB_RM=0, CLS_WANT=0
+src: options.c
+bound: argc <= 3 (all 12 vectors of 1..2 words over the 3-token family EQE), 9-entry table, setting pre-parse=0 remove-args=0, class 0; boolean/integer initial values symbolic
+unwind: 11
 objbits: 16
 backend: sat
 timeout: 300
@@ -270,9 +385,9 @@ mem: 12
 /*@unit
 name: parse.args_eq_empty.pp0rm1
 tier: B
-define: TOK_EQE, VB_ARGC=3, VB_PRE=0, VB_RM=1, CLS_WANT=CLS_ARGS_EQ_EMPTY
+define: TOK_EQE, VB_ARGC=3, VB_PRE=0, VB_RM=1, CLS_WANT=0
 src: options.c
-bound: argc <= 3 (all 12 vectors of 1..2 words over the 3-token family EQE), 9-entry table, setting pre-parse=0 remove-args=1, class CLS_ARGS_EQ_EMPTY; boolean/integer initial values symbolic
+bound: argc <= 3 (all 12 vectors of 1..2 words over the 3-token family EQE), 9-entry table, setting pre-parse=0 remove-args=1, class 0; boolean/integer initial values symbolic
 unwind: 11
 objbits: 16
 backend: sat
@@ -280,11 +395,35 @@ timeout: 300
 mem: 12
 */
 /*@unit
-name: parse.pp_list.pp1rm1
+name: parse.args_eq_empty.pp1rm0
 tier: B
-define: TOK_PPL, VB_ARGC=3, VB_PRE=1, VB_RM=1, CLS_WANT=CLS_PP_LIST
+define: TOK_EQE, VB_ARGC=3, VB_PRE=1, VB_RM=0, CLS_WANT=0
 src: options.c
-bound: argc <= 3 (all 30 vectors of 1..2 words over the 5-token family PPL), 9-entry table, setting pre-parse=1 remove-args=1, class CLS_PP_LIST; boolean/integer initial values symbolic
+bound: argc <= 3 (all 12 vectors of 1..2 words over the 3-token family EQE), 9-entry table, setting pre-parse=1 remove-args=0, class 0; boolean/integer initial values symbolic
+unwind: 11
+objbits: 16
+backend: sat
+timeout: 300
+mem: 12
+*/
+/*@unit
+name: parse.args_eq_empty.pp1rm1
+tier: B
+define: TOK_EQE, VB_ARGC=3, VB_PRE=1, VB_RM=1, CLS_WANT=0
+src: options.c
+bound: argc <= 3 (all 12 vectors of 1..2 words over the 3-token family EQE), 9-entry table, setting pre-parse=1 remove-args=1, class 0; boolean/integer initial values symbolic
+unwind: 11
+objbits: 16
+backend: sat
+timeout: 300
+mem: 12
+*/
+/*@unit
+name: parse.pp_list.pp0rm0
+tier: B
+define: TOK_PPL, VB_ARGC=3, VB_PRE=0, VB_RM=0, CLS_WANT=0
+src: options.c
+bound: argc <= 3 (all 30 vectors of 1..2 words over the 5-token family PPL), 9-entry table, setting pre-parse=0 remove-args=0, class 0; boolean/integer initial values symbolic
 unwind: 27
 objbits: 16
 backend: sat
@@ -294,9 +433,81 @@ mem: 12
 /*@unit
 name: parse.pp_list.pp0rm1
 tier: B
-define: TOK_PPL, VB_ARGC=3, VB_PRE=0, VB_RM=1, CLS_WANT=CLS_PP_LIST
+define: TOK_PPL, VB_ARGC=3, VB_PRE=0, VB_RM=1, CLS_WANT=0
 src: options.c
-bound: argc <= 3 (all 30 vectors of 1..2 words over the 5-token family PPL), 9-entry table, setting pre-parse=0 remove-args=1, class CLS_PP_LIST; boolean/integer initial values symbolic
+bound: argc <= 3 (all 30 vectors of 1..2 words over the 5-token family PPL), 9-entry table, setting pre-parse=0 remove-args=1, class 0; boolean/integer initial values symbolic
+unwind: 27
+objbits: 16
+backend: sat
+timeout: 300
+mem: 12
+*/
+/*@unit
+name: parse.pp_list.pp1rm0
+tier: B
+define: TOK_PPL, VB_ARGC=3, VB_PRE=1, VB_RM=0, CLS_WANT=0
+src: options.c
+bound: argc <= 3 (all 30 vectors of 1..2 words over the 5-token family PPL), 9-entry table, setting pre-parse=1 remove-args=0, class 0; boolean/integer initial values symbolic
+unwind: 27
+objbits: 16
+backend: sat
+timeout: 300
+mem: 12
+*/
+/*@unit
+name: parse.pp_list.pp1rm1
+tier: B
+define: TOK_PPL, VB_ARGC=3, VB_PRE=1, VB_RM=1, CLS_WANT=0
+src: options.c
+bound: argc <= 3 (all 30 vectors of 1..2 words over the 5-token family PPL), 9-entry table, setting pre-parse=1 remove-args=1, class 0; boolean/integer initial values symbolic
+unwind: 27
+objbits: 16
+backend: sat
+timeout: 300
+mem: 12
+*/
+/*@unit
+name: parse.lone_dash.pp0rm0
+tier: B
+define: TOK_DASH, VB_ARGC=3, VB_PRE=0, VB_RM=0, CLS_WANT=0
+src: options.c
+bound: argc <= 3 (all 30 vectors of 1..2 words over the 5-token family DASH), 9-entry table, setting pre-parse=0 remove-args=0, class 0; boolean/integer initial values symbolic
+unwind: 27
+objbits: 16
+backend: sat
+timeout: 300
+mem: 12
+*/
+/*@unit
+name: parse.lone_dash.pp0rm1
+tier: B
+define: TOK_DASH, VB_ARGC=3, VB_PRE=0, VB_RM=1, CLS_WANT=0
+src: options.c
+bound: argc <= 3 (all 30 vectors of 1..2 words over the 5-token family DASH), 9-entry table, setting pre-parse=0 remove-args=1, class 0; boolean/integer initial values symbolic
+unwind: 27
+objbits: 16
+backend: sat
+timeout: 300
+mem: 12
+*/
+/*@unit
+name: parse.lone_dash.pp1rm0
+tier: B
+define: TOK_DASH, VB_ARGC=3, VB_PRE=1, VB_RM=0, CLS_WANT=0
+src: options.c
+bound: argc <= 3 (all 30 vectors of 1..2 words over the 5-token family DASH), 9-entry table, setting pre-parse=1 remove-args=0, class 0; boolean/integer initial values symbolic
+unwind: 27
+objbits: 16
+backend: sat
+timeout: 300
+mem: 12
+*/
+/*@unit
+name: parse.lone_dash.pp1rm1
+tier: B
+define: TOK_DASH, VB_ARGC=3, VB_PRE=1, VB_RM=1, CLS_WANT=0
+src: options.c
+bound: argc <= 3 (all 30 vectors of 1..2 words over the 5-token family DASH), 9-entry table, setting pre-parse=1 remove-args=1, class 0; boolean/integer initial values symbolic
 unwind: 27
 objbits: 16
 backend: sat
@@ -482,12 +693,7 @@ unsigned long spiftool_num_words(const spif_charptr_t s) { __CPROVER_assert(0, "
 #include "options.h"
 
 #define CLS_UNKNOWN        1u
-#define CLS_DASH           2u
-#define CLS_SHORTBOOL_VAL  4u
-#define CLS_ARGS_ATTACHED  8u
-#define CLS_ARGS_EQ_EMPTY  16u
 #define CLS_MISSING        32u
-#define CLS_PP_LIST        64u
 
 #define NW (VB_ARGC - 1)
 
@@ -576,12 +782,9 @@ static int r_apply(int j, const char *val, int haseq, int from_next, int islong,
     if (f & SPIFOPT_FLAG_ARGLIST) {
         if (!val) { r_cls |= CLS_MISSING; return 0; }
         if (haseq) {
-            if (!*val) r_cls |= CLS_ARGS_EQ_EMPTY;
             if (r_pass(j)) { r_args_kind = 1; r_args_first = val; r_args_pp = (f & SPIFOPT_FLAG_PREPARSE) != 0; }
             return 0;
         }
-        if (!from_next) r_cls |= CLS_ARGS_ATTACHED;
-        if ((f & SPIFOPT_FLAG_PREPARSE) && r_rm) r_cls |= CLS_PP_LIST;
         if (r_pass(j)) { r_args_kind = 2; r_args_first = val; r_args_next = from_next ? i + 2 : i + 1; r_args_pp = (f & SPIFOPT_FLAG_PREPARSE) != 0; }
         r_stop = 1;                              /* the rest of the line belongs to the list */
         return from_next;
@@ -601,7 +804,7 @@ static void ref_parse(int argc, char **av)
     while (i < argc && !r_stop) {
         const char *w = av[i];
         if (w[0] != '-') { r_keep[i] = 1; i++; continue; }
-        if (w[1] == 0) { r_cls |= CLS_DASH; r_keep[i] = 1; i++; continue; }
+        if (w[1] == 0) { r_keep[i] = 1; i++; continue; }          /* a lone "-" is a non-option word */
         if (w[1] == '-') {
             const char *name = w + 2; size_t nl = 0; const char *val = (const char *) 0; int from_next = 0, haseq, j;
             while (name[nl] && name[nl] != '=') nl++;
@@ -620,7 +823,6 @@ static void ref_parse(int argc, char **av)
                 if (j < 0) { r_cls |= CLS_UNKNOWN; p++; continue; }
                 if (w[p + 1]) val = w + p + 1; else if (i + 1 < argc) { val = av[i + 1]; from_next = 1; }
                 if (tab[j].flags & SPIFOPT_FLAG_BOOLEAN) {
-                    if (r_boolword(val) >= 0) r_cls |= CLS_SHORTBOOL_VAL;
                     r_apply(j, (const char *) 0, 0, 0, 0, i, argc);
                     p++; continue;
                 }
@@ -657,6 +859,8 @@ static char *const TOK[] = {
     "f", "-a", "--e=",
 #elif defined(TOK_PPL)     /* pre-parse list option */
     "f", "g", "-a", "-E", "--E",
+#elif defined(TOK_DASH)    /* the lone dash: an ordinary word (also as the value of a string option) */
+    "-", "f", "-a", "--l", "-s",
 #else
 # error "token family not selected"
 #endif
